@@ -1,4 +1,7 @@
 import Driver.Paych
+import Driver.VM
+import Driver.MinerLedger
+import Driver.Cron
 
 /-- generic stdin/stdout loop over a pure handler -/
 partial def loop {σ : Type} (h : IO.FS.Stream) (out : IO.FS.Stream) (step : σ → String → σ × String)
@@ -15,4 +18,7 @@ def main (args : List String) : IO UInt32 := do
   let stdout ← IO.getStdout
   match args with
   | ["paych"] => loop stdin stdout Driver.Paych.handle (BA.Paych.init 0 0); return 0
+  | ["vm"] => loop stdin stdout Driver.VM.handle (); return 0
+  | ["minerledger"] => loop stdin stdout Driver.MinerLedger.handle []; return 0
+  | ["cron"] => loop stdin stdout Driver.Cron.handle (); return 0
   | _ => IO.eprintln "usage: driver <model>"; return 2
